@@ -1,7 +1,7 @@
 """Persistence simulator shared by C04 (fault-free round trips) and C14 (fault enumeration over fs calls)."""
 import os, shutil, zipfile
 import modelx as mx
-from . import machine, gen, describe, history, fsshim, probe, refmodel as rm
+from . import machine, gen, describe, history, fsshim, probe, kernel, refmodel as rm
 from .props.base import Violation
 from .props import c02
 
@@ -634,8 +634,18 @@ def enumerate_save(ctx, ses, state, st, mark, check_after):
         raise Violation("C14/save-failed-without-fault/%s" % type(err).__name__, {"error": repr(err)[:300]})
     ctx.count("mutating_calls_in_enumerated_save", n, "reach")
     try:
+        ks = list(range(n))
+        full = True
+        if ctx.tier == "quick" and n > 70:
+            # the quick tier takes a seeded subset of the points of a long save (always including its first and last
+            # ten); the thorough tier takes every point
+            import random as _r
+            rr = _r.Random(kernel.h64(ctx.seed, "enum-subset"))
+            mid = list(range(10, n - 10))
+            ks = sorted(set(range(10)) | set(range(n - 10, n)) | set(rr.sample(mid, 50)))
+            full = False
         for kind, en in st["kinds"]:
-            for k in range(n):
+            for k in ks:
                 shutil.rmtree(ses.dir, ignore_errors=True)
                 shutil.copytree(snap, ses.dir)
                 state["good"] = list(good0)
@@ -674,6 +684,9 @@ def enumerate_save(ctx, ses, state, st, mark, check_after):
                     state["good"].insert(0, (state["gen"], d2))
                     check_after("save-ok-after-fault", False)
                     ctx.count("follow_up_saves", 1, "reach")
-        ctx.stats["exhaustive_saves"] = ctx.stats.get("exhaustive_saves", 0) + 1
+        if full:
+            ctx.stats["exhaustive_saves"] = ctx.stats.get("exhaustive_saves", 0) + 1
+        else:
+            ctx.stats["subsampled_saves"] = ctx.stats.get("subsampled_saves", 0) + 1
     finally:
         shutil.rmtree(snap, ignore_errors=True)
